@@ -140,7 +140,7 @@ pub fn run(ctx: &Ctx) -> i32 {
         res
     });
     // random forests: wide and deep
-    let nrand = ctx.tier.pick(300u64, 6000u64);
+    let nrand = ctx.tier.pick(1500u64, 20_000u64);
     let rnd = run_stage(ctx, "random-forests", nrand, |i| {
         let mut rng = Rng::derive(ctx.seed, "C09", i);
         let n = match i % 4 {
